@@ -190,12 +190,72 @@ type rlocker struct{ m *RWMutex }
 func (r rlocker) Lock()   { r.m.RLock() }
 func (r rlocker) Unlock() { r.m.RUnlock() }
 
+// ---- Pool
+//
+// sync.Pool may hand back any object put earlier, or a new one. The model is
+// the adversarial refinement for aliasing bugs: Get returns the most recently
+// Put object whenever there is one. Per the Go memory model a Put(x)
+// synchronises before the Get that returns x.
+
+type Pool struct {
+	New   func() any
+	real  sync.Pool
+	items []poolItem
+}
+
+type poolItem struct {
+	v   any
+	obj *vrt.SyncObj
+}
+
+func (p *Pool) Get() any {
+	if !vrt.Active() {
+		if v := p.real.Get(); v != nil {
+			return v
+		}
+		if p.New != nil {
+			return p.New()
+		}
+		return nil
+	}
+	vrt.SyncPoint("Pool.Get")
+	if n := len(p.items); n > 0 {
+		it := p.items[n-1]
+		p.items = p.items[:n-1]
+		vrt.Acquire(it.obj)
+		return it.v
+	}
+	vrt.Observe(1)
+	if p.New != nil {
+		return p.New()
+	}
+	return nil
+}
+
+func (p *Pool) Put(x any) {
+	if !vrt.Active() {
+		p.real.Put(x)
+		return
+	}
+	if x == nil {
+		return
+	}
+	vrt.SyncPoint("Pool.Put")
+	if n := len(p.items); n > 0 {
+		vrt.ObserveObj(p.items[n-1].obj) // the order of Puts decides what later Gets return
+	} else {
+		vrt.Observe(2)
+	}
+	obj := &vrt.SyncObj{}
+	vrt.Release(obj)
+	p.items = append(p.items, poolItem{x, obj})
+}
+
 // Unsupported members keep the real implementation (they are not scheduling
 // points; the rewriter counts their uses as uninstrumented).
 type (
 	Cond = sync.Cond
 	Map  = sync.Map
-	Pool = sync.Pool
 )
 
 func NewCond(l Locker) *Cond { return sync.NewCond(l) }
